@@ -164,6 +164,13 @@ QUICK = [_reg(Getset("names2", 2, "names")).name, _reg(Getset("prefix", 0, "pref
 THOROUGH = [_reg(Getset("T_names3", 3, "names")).name, "prefix", "create_flags"]
 
 
+# archive level, through the real CLI create path (harness/cli_create.py)
+from harness import cli_create as _cc
+for _n in ['T_create_two_t2_p1', 'create_pan_t1', 'create_pan_t2', 'create_two_t1', 'create_two_t2']:
+    INSTANCES[_n] = _cc.INSTANCES[_n]
+QUICK += ['create_two_t1', 'create_two_t2', 'create_pan_t1']; THOROUGH += ['create_two_t1', 'create_pan_t2', 'T_create_two_t2_p1']
+
+
 def run(ctx):
     insts = [INSTANCES[n] for n in (QUICK if ctx["tier"] == "quick" else THOROUGH)]
     return run_instances("C17", "harness.C17", insts, ctx,
